@@ -145,7 +145,7 @@ def corr_merger(ctx, quick):
 def table_lines(path):
     return sorted(l for l in P.opn(path) if not l.startswith("# Command line:"))
 
-COMPARED = ["read_assignments.tsv", "corrected_reads.bed", "gene_counts.tsv", "transcript_counts.tsv", "gene_tpm.tsv", "transcript_tpm.tsv"]
+COMPARED = ["read_assignments.tsv", "corrected_reads.bed", "gene_counts.tsv", "transcript_counts.tsv", "gene_tpm.tsv", "transcript_tpm.tsv", "exon_counts.tsv", "intron_counts.tsv"]
 OTHER = ["transcript_model_counts.tsv", "transcript_model_tpm.tsv", "transcript_models.gtf", "extended_annotation.gtf", "transcript_model_reads.tsv"]
 
 def multiset_digest(outdir, prefix, names):
@@ -167,7 +167,12 @@ def pipeline_split(ctx, quick):
         dups = []
         for a in rnd.sample(recs, 30):
             b = pysam.AlignedSegment.from_dict(a.to_dict(), pysam.AlignmentHeader.from_dict(hdr)); b.query_name = a.query_name + "_dup"; dups.append(b)
-        allrecs = recs + dups
+        # unaligned records (flag 4): they only show in the __not_aligned row of the ungrouped tables; samtools sort puts them at the end of whichever file holds them
+        unal = []
+        for k, a in enumerate(rnd.sample(recs, 7)):
+            b = pysam.AlignedSegment(pysam.AlignmentHeader.from_dict(hdr)); b.query_name = "unaligned_%d" % k; b.flag = 4; b.reference_id = -1; b.reference_start = -1
+            b.mapping_quality = 0; b.query_sequence = a.query_sequence or "ACGTACGTAC"; unal.append(b)
+        allrecs = recs + dups + unal
         hdr.setdefault("HD", {})["SO"] = "unsorted"
         def write(path, rs):
             u = path + ".u.bam"
@@ -176,7 +181,8 @@ def pipeline_split(ctx, quick):
             pysam.sort("-o", path, u); os.remove(u); pysam.index(path); return path
         layouts = collections.OrderedDict()
         layouts["1"] = [allrecs]
-        layouts["2 (originals / duplicates)"] = [recs, dups]
+        layouts["2 (originals + unaligned / duplicates)"] = [recs + unal, dups]            # all unaligned records in the FIRST file
+        layouts["3 (unaligned records 3 / 4 / 0)"] = [recs[0::3] + unal[:3], recs[1::3] + dups + unal[3:], recs[2::3]]
         for k in (2, 3, 4):
             parts = [[] for _ in range(k)]
             for i, a in enumerate(allrecs): parts[rnd.randrange(k)].append(a)
@@ -189,7 +195,7 @@ def pipeline_split(ctx, quick):
         for li, (name, parts) in enumerate(layouts.items()):
             bams = [write(os.path.join(root, "l%d_%d.bam" % (li, j)), p) for j, p in enumerate(parts)]
             jobs.append((name, bams))
-        base = ["--reference", data["fasta"], "--genedb", data["gtf"], "--complete_genedb", "--data_type", "nanopore", "-p", "S", "--threads", "1"]
+        base = ["--reference", data["fasta"], "--genedb", data["gtf"], "--complete_genedb", "--data_type", "nanopore", "-p", "S", "--threads", "1", "--count_exons"]
         def one(j):
             name, bams = j
             od = os.path.join(root, "out_" + str(abs(hash(name)) % 10 ** 8))
@@ -214,9 +220,10 @@ def pipeline_split(ctx, quick):
                     ctx.violation("split:" + f, "%s differs (as a multiset of lines) between the records in one BAM and the same records split over several BAM files of one experiment" % f,
                                   {"layout": name, "file": f, "only_in_one_bam": list((a - b).elements())[:5], "only_in_split": list((b - a).elements())[:5]})
             nother += sum(1 for f in OTHER if other[f] != ref[2][f])
-        ctx.notes.append("pipeline/BAM: %d reads (+%d duplicated records) as %s; files outside the statement (novel models) that differ: %d" % (len(recs), len(dups), list(layouts), nother))
+        ctx.notes.append("pipeline/BAM: %d reads (+%d duplicated, +7 unaligned records) as %s; files outside the statement (novel models) that differ: %d" % (len(recs), len(dups), list(layouts), nother))
         ctx.rule("pipeline, one BAM or several: the %d bundled reads plus 30 duplicated records (new names, same alignment) written as 1, 2, 3, 4 coordinate-sorted BAM files of one experiment "
-                 "(originals / duplicates, random assignment, round robin with reversed writing order) -> read_assignments, corrected BED, gene / transcript counts and TPM must be equal as multisets of lines" % len(recs))
+                 "(originals / duplicates, random assignment, round robin with reversed writing order; 7 unaligned records placed in the first file, in the first two of three, at random), run with --count_exons -> "
+                 "read_assignments, corrected BED, gene / transcript counts (all rows, the __ambiguous / __no_feature / __not_aligned tallies included) and TPM, ungrouped exon_counts / intron_counts must be equal as multisets of lines" % len(recs))
     finally:
         shutil.rmtree(root, ignore_errors=True)
 
@@ -248,6 +255,10 @@ def pipeline_annotation(ctx, quick):
         base = ["--bam", data["bam"], "--reference", data["fasta"], "--data_type", "nanopore", "-p", "S", "--threads", "1"]
         confs = [("gtf.gz, --complete_genedb", gz, True, None), ("gtf.gz, inferred", gz, False, None), ("gtf, --complete_genedb", plain, True, None), ("gtf, inferred", plain, False, None),
                  ("db built with --complete_genedb", dbs[True], False, None), ("db built with inference", dbs[False], False, None), ("db built with inference, --complete_genedb given", dbs[False], True, None)]
+        # check_and_load_args takes every name whose lower-cased form ends in "db" for a database
+        for alias in ("chr9.4M.genedb", "annotation.sqlitedb", "CHR9.DB", "chr9_4M_db"):
+            pth = os.path.join(root, "data", "names", alias); os.makedirs(os.path.dirname(pth), exist_ok=True); shutil.copy(dbs[True], pth)
+            confs.append(("db under the name %s" % alias, pth, False, None))
         def one(c):
             name, ann, complete, home = c
             od = os.path.join(root, "out_%d" % (abs(hash(name)) % 10 ** 8))
@@ -295,7 +306,7 @@ def pipeline_annotation(ctx, quick):
                     ctx.violation("annotation:" + f.split(".", 1)[1], "%s differs between two representations of the same annotation" % f,
                                   {"reference_configuration": ref[0], "configuration": name, "file": f, "first_difference_at_line": k, "reference_line": a[k:k + 1], "line": b[k:k + 1], "lengths": [len(a), len(b)]})
         ctx.notes.append("pipeline/GTF: %d configurations compared file by file (%s)" % (len(res), [r[0] for r in res]))
-        ctx.rule("pipeline, representations of the annotation: bundled chr9 annotation as .gtf.gz, .gtf, a database pre-built by src.gtf2db.gtf2db with and without inference, each with / without "
+        ctx.rule("pipeline, representations of the annotation: bundled chr9 annotation as .gtf.gz, .gtf, a database pre-built by src.gtf2db.gtf2db with and without inference (also under the names *.genedb, *.sqlitedb, *.DB, *_db, which IsoQuant's own rule takes for databases), each with / without "
                  "--complete_genedb, and two configurations twice under one HOME (fresh conversion, then the cached database): every output file must be identical line by line (command-line header line ignored); an annotation edited in place (same path, later mtime, same HOME) must give the outputs of a fresh run on the edited text")
         ctx.assume.append("the GTF / gzipped GTF / database half is differential only: gffutils (create_db, FeatureDB) is an oracle in the trusted base; nothing about its conversion is proved")
     finally:
